@@ -26,7 +26,7 @@ theorem programRaw_eq_progOf (F : NumFmt) (L : List Instruction) : programRaw F 
 
 theorem stripNL_snoc (X : List Token) : stripNL (X ++ [.newLine]) = X := by simp [stripNL]
 
-theorem eq_dropLast_snoc (l : List Token) (a : Token) (h : l.getLast? = some a) : l = l.dropLast ++ [a] := by
+theorem eq_dropLast_snoc {α : Type} (l : List α) (a : α) (h : l.getLast? = some a) : l = l.dropLast ++ [a] := by
   induction l with
   | nil => simp at h
   | cons x l ih =>
